@@ -93,7 +93,7 @@ fn one_run(a: &Args, rng: &mut Rng, ctx: &mut Ctx, n_ops: usize) -> Result<(), S
     let db = abyssiniandb::open_file(&dir).map_err(|e| e.to_string())?;
     // (names with a path separator live in a sub-directory, which exists; "sub/m" and "sub_m" are different maps)
     let _ = std::fs::create_dir_all(dir.join("sub"));
-    let names = ["m", "m1", "m.key", "mm", "M", "m.val", "1m", "sub/m", "sub_m"];
+    let names = ["m", "m1", "m.key", "mm", "M", "m.val", "1m", "sub/m", "sub_m", "tmp", "m.key.2"];
     let nmaps = rng.range(2, 5) as usize;
     let mut order: Vec<usize> = (0..names.len()).collect();
     for i in (1..order.len()).rev() {
@@ -120,6 +120,7 @@ fn one_run(a: &Args, rng: &mut Rng, ctx: &mut Ctx, n_ops: usize) -> Result<(), S
     ctx.count(&format!("maps_per_run.{nmaps}"), 1);
     let db2 = db.clone();
     let mut switch_hash = 0u64;
+    let mut m_created = false;
     let mut done = 0usize;
     let mut violation: Option<String> = None;
     while done < n_ops && violation.is_none() {
@@ -165,11 +166,16 @@ fn one_run(a: &Args, rng: &mut Rng, ctx: &mut Ctx, n_ops: usize) -> Result<(), S
                 let lim = crate::sys::highest_fd() + 1 + rng.below(3);
                 if crate::sys::set_nofile_soft(lim) {
                     let extra_kt = m.kt;
-                    let r = guarded(crate::session::STEP_BUDGET_BASE, || open_dyn(&db, extra_kt, &format!("zz_extra{done}"), &Cfg::small(8)));
+                    // (the map that fails to be created is "m" when that name is free: other maps' names start with "m.")
+                    let extra_name = if !maps.iter().any(|x| x.name == "m") && !m_created { "m".to_string() } else { format!("zz_extra{done}") };
+                    let r = guarded(crate::session::STEP_BUDGET_BASE, || open_dyn(&db, extra_kt, &extra_name, &Cfg::small(8)));
                     crate::sys::set_nofile_soft(cur);
                     match r {
                         Guard::Ok(Ok(h)) => {
                             drop(h);
+                            if extra_name == "m" {
+                                m_created = true;
+                            }
                             ctx.count("fd_exhaustion.create_succeeded", 1);
                         }
                         Guard::Ok(Err(_)) => ctx.count("fd_exhaustion.create_failed", 1),
